@@ -327,4 +327,196 @@ theorem longOpt_step (opts : List SOpt) (hok : OptsOk opts) {argv : List Buf} {s
       simp only [takeRest_view hv3 hvn]
       exact ⟨_, _, rest, rfl, Rel.afterTake hv3 ha hr hrn, hskip, Nat.le_refl _, rfl⟩
 
+
+theorem parse_long (opts : List SOpt) (c2 : Nat) (body' : List Nat) (rest : List Word) :
+    parse opts none ((45 :: 45 :: c2 :: body') :: rest) = specLong opts (45 :: 45 :: c2 :: body') (c2 :: body') rest := by
+  rw [parse]; simp only [specLong, List.isEmpty_cons, if_true, if_false, Bool.false_eq_true]; rfl
+
+theorem parse_cluster (opts : List SOpt) (c1 : Nat) (body : List Nat) (rest : List Word) (h : c1 ≠ 45) :
+    parse opts none ((45 :: c1 :: body) :: rest) =
+      (cluster opts (c1 :: body)).1 ++ parse opts (cluster opts (c1 :: body)).2 rest := by
+  simp [parse, h]
+
+theorem parse_nonopt (opts : List SOpt) (c0 : Nat) (w1 : List Nat) (rest : List Word) (h : c0 ≠ 45) :
+    parse opts none ((c0 :: w1) :: rest) = (0, c0 :: w1) :: parse opts none rest := by
+  cases w1 <;> simp [parse, h]
+
+/-- the body of `read` right after a word `w` was fetched (`arg` at its first byte, `inOpt` false) -/
+theorem readWord_step (opts : List SOpt) (hok : OptsOk opts) {argv av : List Buf} {cur : Nat} {blk : Option Nat}
+    {off : Nat} {so : Bool} {w : Word} {rest' : List Word}
+    (hv : View ⟨av, cur, blk, off, false, so⟩ (term w) [] (w ++ [0])) (ha : av = argv)
+    (hr : argv.drop cur = rest'.map term) (hwn : NoNul w) (hrn' : ∀ x ∈ rest', NoNul x) :
+    (∃ st', readWord (opts.map toModel) ⟨av, cur, blk, off, false, so⟩ = some (none, st') ∧
+        cont opts so [] (w :: rest') = []) ∨
+    (∃ r st' pending' rest'', readWord (opts.map toModel) ⟨av, cur, blk, off, false, so⟩ = some (some r, st') ∧
+        Rel argv st' pending' rest'' ∧ pending'.length + size rest'' < size (w :: rest') ∧
+        cont opts so [] (w :: rest') = r :: cont opts st'.skipOpt pending' rest'') := by
+  have hoff : off = 0 := by simpa using hv.2.2
+  have hnon : ∀ so', View ⟨av, cur, blk, off, false, so'⟩ (term w) [] (w ++ [0]) →
+      readTail (opts.map toModel) ⟨av, cur, blk, off, false, so'⟩ =
+        some (some (0, w), ⟨av, cur, blk, off + w.length, false, so'⟩) := by
+    intro so' hv'
+    simp only [readTail, Bool.false_eq_true, if_false, takeRest_view hv' hwn]
+  have hRnon : ∀ so', View ⟨av, cur, blk, off, false, so'⟩ (term w) [] (w ++ [0]) →
+      Rel argv ⟨av, cur, blk, off + w.length, false, so'⟩ [] rest' :=
+    fun so' hv' => Rel.afterTake hv' ha hr hrn'
+  cases so with
+  | true =>
+    right
+    refine ⟨(0, w), _, [], rest', ?_, hRnon true hv, by simp [size], ?_⟩
+    · unfold readWord; simp only [Bool.not_true, Bool.and_false, Bool.false_eq_true, if_false]; exact hnon true hv
+    · simp [cont]
+  | false =>
+    unfold readWord
+    simp only [Bool.not_false, Bool.and_self, if_true, cont_nil]
+    cases w with
+    | nil =>
+      right
+      have hp := hv.peek 0
+      simp only [List.nil_append, List.getElem?_cons_zero] at hp
+      simp only [hp, show ¬ (0 : Nat) = 45 by decide, if_false]
+      refine ⟨_, _, [], rest', hnon false hv, hRnon false hv, by simp [size], ?_⟩
+      simp [cont, cluster, parse]
+    | cons c0 w1 =>
+      have hp := hv.peek 0
+      simp only [List.cons_append, List.getElem?_cons_zero] at hp
+      simp only [hp]
+      by_cases h45 : c0 = 45
+      case neg =>
+        right
+        simp only [h45, if_false]
+        refine ⟨_, _, [], rest', hnon false hv, hRnon false hv, by simp [size], ?_⟩
+        simp [cont, cluster, parse_nonopt opts c0 w1 rest' h45]
+      case pos =>
+        subst h45
+        simp only [if_true]
+        have hp1 := hv.peek 1
+        simp only [List.cons_append, List.getElem?_cons_succ] at hp1
+        cases w1 with
+        | nil =>
+          -- the word "-"
+          right
+          simp only [List.nil_append, List.getElem?_cons_zero] at hp1
+          simp only [hp1, show ¬ (0 : Nat) = 45 by decide, if_false]
+          have hv2 : View ⟨av, cur, blk, off + 1, false, false⟩ (term [45]) ([] ++ [45]) ([] ++ [0]) :=
+            View.advance (st := ⟨av, cur, blk, off, false, false⟩) (x := [45]) (by simpa using hv) rfl rfl
+          have hp2 := hv2.peek 0
+          simp only [List.nil_append, List.getElem?_cons_zero] at hp2
+          have hoff1 : ¬ off + 1 < 1 := by omega
+          have hsl : slice (term [45]) (off + 1 - 1) 1 = some [45] := by
+            simp [hoff, slice, term]
+          simp only [hp2, if_true, hoff1, if_false, hv2.1, hsl]
+          refine ⟨_, _, [], rest', rfl, ⟨ha, hr, ⟨_, _, hv2⟩, by intro x hx; simp at hx, hrn', by simp, by simp⟩,
+            by simp [size], ?_⟩
+          simp [cont, cluster, parse]
+        | cons c1 body =>
+          simp only [List.cons_append, List.getElem?_cons_zero] at hp1
+          simp only [hp1]
+          have hc1 : c1 ≠ 0 := hwn.tail.head
+          by_cases h45' : c1 = 45
+          case neg =>
+            -- a cluster of short options
+            right
+            simp only [h45', if_false]
+            have hv2 : View ⟨av, cur, blk, off + 1, false, false⟩ (term (45 :: c1 :: body)) ([] ++ [45])
+                ((c1 :: body) ++ [0]) :=
+              View.advance (st := ⟨av, cur, blk, off, false, false⟩) (x := [45]) (by simpa using hv) rfl rfl
+            have hp2 := hv2.peek 0
+            simp only [List.cons_append, List.getElem?_cons_zero] at hp2
+            simp only [hp2, hc1, if_false]
+            have hR2 : Rel argv ⟨av, cur, blk, off + 1, true, false⟩ (c1 :: body) rest' :=
+              ⟨ha, hr, ⟨_, _, hv2⟩, hwn.tail, hrn', fun _ => rfl, by simp⟩
+            obtain ⟨r, st', p', rest'', hrd, hR, hsk', hm, hc'⟩ := shortOpt_step opts hR2
+            refine ⟨r, st', p', rest'', ?_, hR, by simp [size] at hm ⊢; omega, ?_⟩
+            · simp only [readTail, if_true]; exact hrd
+            · have hsk'' : st'.skipOpt = false := hsk'
+              rw [parse_cluster opts c1 body rest' h45', hc']
+              simp [cont, hsk'']
+          case pos =>
+            subst h45'
+            simp only [if_true]
+            have hv2 : View ⟨av, cur, blk, off + 2, false, false⟩ (term (45 :: 45 :: body)) ([] ++ [45, 45])
+                (body ++ [0]) :=
+              View.advance (st := ⟨av, cur, blk, off, false, false⟩) (x := [45, 45]) (by simpa using hv) rfl rfl
+            have hp2 := hv2.peek 0
+            cases body with
+            | nil =>
+              -- the word "--"
+              simp only [List.nil_append, List.getElem?_cons_zero] at hp2
+              simp only [hp2, if_true]
+              have hv2' : View ⟨av, cur, blk, off + 2, false, true⟩ (term [45, 45]) ([] ++ [45, 45]) ([] ++ [0]) := hv2
+              have hR2 : Rel argv ⟨av, cur, blk, off + 2, false, true⟩ [] rest' :=
+                ⟨ha, hr, ⟨_, _, hv2'⟩, by intro x hx; simp at hx, hrn', by simp, by simp⟩
+              cases rest' with
+              | nil =>
+                left
+                rw [nextChar_end hR2]
+                exact ⟨_, rfl, by simp [parse]⟩
+              | cons v rest'' =>
+                right
+                obtain ⟨hn, hvf, hrf⟩ := nextChar_fetch hR2
+                rw [hn]
+                have hvn : NoNul v := hrn' v (by simp)
+                have ht : readTail (opts.map toModel) (fetch ⟨av, cur, blk, off + 2, false, true⟩) =
+                    some (some (0, v), { fetch ⟨av, cur, blk, off + 2, false, true⟩ with
+                      off := (fetch ⟨av, cur, blk, off + 2, false, true⟩).off + v.length }) := by
+                  simp only [readTail, fetch, Bool.false_eq_true, if_false]
+                  exact takeRest_view hvf hvn 0
+                refine ⟨_, _, [], rest'', ht, Rel.afterTake hvf ha hrf (fun x hx => hrn' x (by simp [hx])),
+                  by simp [size]; omega, ?_⟩
+                simp [parse, cont, fetch]
+            | cons c2 body' =>
+              right
+              simp only [List.cons_append, List.getElem?_cons_zero] at hp2
+              have hc2 : c2 ≠ 0 := hwn.tail.tail.head
+              simp only [hp2, hc2, if_false]
+              obtain ⟨r, st', rest'', hrd, hR, hsk', hm, hc'⟩ :=
+                longOpt_step opts hok (st := ⟨av, cur, blk, off + 2, false, false⟩) (by simpa using hv2)
+                  hwn.tail.tail ha hr hrn' rfl
+              refine ⟨r, st', [], rest'', hrd, hR, by simp [size] at hm ⊢; omega, ?_⟩
+              rw [parse_long, hc']
+              simp [cont, hsk', cluster]
+
+/-- one call of `read` from a state between two reads -/
+theorem read_step (opts : List SOpt) (hok : OptsOk opts) {argv : List Buf} {st : St} {pending : List Nat}
+    {rest : List Word} (h : Rel argv st pending rest) :
+    (∃ st', read (opts.map toModel) st = some (none, st') ∧ cont opts st.skipOpt pending rest = []) ∨
+    (∃ r st' pending' rest', read (opts.map toModel) st = some (some r, st') ∧ Rel argv st' pending' rest' ∧
+       pending'.length + size rest' < pending.length + size rest ∧
+       cont opts st.skipOpt pending rest = r :: cont opts st'.skipOpt pending' rest') := by
+  cases pending with
+  | cons c cs =>
+    -- inside a cluster
+    right
+    obtain ⟨b, pre, hv⟩ := h.view
+    have hp0 : st.peek 0 = some c := by rw [hv.peek]; simp
+    have hc : c ≠ 0 := h.pnz.head
+    have hin : st.inOpt = true := h.inopt (by simp)
+    have hsk : st.skipOpt = false := by
+      cases hs : st.skipOpt with
+      | false => rfl
+      | true => exact absurd (h.skip hs) (by simp)
+    obtain ⟨r, st', p', rest', hrd, hR, hsk', hm, hc'⟩ := shortOpt_step opts h
+    refine ⟨r, st', p', rest', ?_, hR, hm, ?_⟩
+    · unfold read nextChar readWord
+      simp only [hp0, hc, ne_eq, not_false_eq_true, if_true, hin, Bool.not_true, Bool.false_and,
+        Bool.false_eq_true, if_false, readTail, hrd]
+    · simp only [cont, hsk, hsk', Bool.false_eq_true, if_false]; exact hc'
+  | nil =>
+    cases rest with
+    | nil =>
+      left
+      refine ⟨st, ?_, ?_⟩
+      · unfold read; rw [nextChar_end h]
+      · cases st.skipOpt <;> simp [cont, cluster, parse]
+    | cons w rest' =>
+      obtain ⟨hn, hvf, hrf⟩ := nextChar_fetch h
+      have hwn : NoNul w := h.rnz w (by simp)
+      have hrn' : ∀ x ∈ rest', NoNul x := fun x hx => h.rnz x (by simp [hx])
+      have key := readWord_step opts hok (av := st.argv) (cur := st.cur + 1) (blk := some st.cur) (off := 0)
+        (so := st.skipOpt) (w := w) (rest' := rest') hvf h.argv_eq hrf hwn hrn'
+      unfold read
+      rw [hn]
+      simpa [size, fetch] using key
+
 end Nstd.Args
